@@ -14,7 +14,7 @@
 From Coq Require Import Lia.
 From ChitchatModel Require Import Base SMap Ids Bytes Params NodeState Stream DeltaWire Message Cluster
   FD Chitchat World Monitors SMap_lemmas NodeState_lemmas Inv Compute_lemmas NodeInv Truth NodeTruth Weak Exact
-  Reach ReachExact GExec Monitors_lemmas Catchup_lemmas CatchupReach.
+  Reach ReachExact GExec Monitors_lemmas Catchup_lemmas CatchupReach GuardsGen GuardTie.
 
 Section C02.
   Variable zc : bytes -> option bytes.
@@ -191,3 +191,13 @@ Print Assumptions C02_no_resurrection.
 Print Assumptions C02_messages_in_flight_exact.
 Print Assumptions C02_strict_runs_are_exact.
 Print Assumptions C02_refuted_by_weak_acceptance.
+
+(* ---- the tie of the decision guards to the sources (GuardTie.v; see C14.v for the scheme) ---- *)
+(* the watermark a GC pass leaves is the highest collected version (what makes a collected deletion
+   "at or below the watermark"): the expression in the sources is the model's *)
+Theorem C02_gc_watermark_is_the_source_expression :
+  (forall ver acc cgc, rs_gc_watermark ver acc cgc = g_gc_watermark ver acc) /\
+  ((forall now t grace, rs_gc_keep now t grace = g_gc_keep now t grace) \/
+   (forall now t grace, rs_gc_keep now t grace = negb (g_gc_keep now t grace))).
+Proof. exact (conj tie_gc_watermark tie_gc_keep). Qed.
+Print Assumptions C02_gc_watermark_is_the_source_expression.
